@@ -241,6 +241,12 @@ def scalars(E, cfg):
         r = fn()
         E.check(type(r) is cls and r.unit is u, label + '-keeps-class-unit', key=label + ':class-unit', info=us)
         E.check(r.amount == exact, label + '-value', key=label + ':value', info=us)
+    for label, fn, exact in (('qty-div-float', lambda: qa / 2.0, a / 2), ('qty-times-float', lambda: qa * 0.5, a / 2),
+                             ('float-times-qty', lambda: 0.25 * qa, a / 4), ('unit-times-float', lambda: u * 1.5, Fraction(3, 2)),
+                             ('unit-div-float', lambda: u / 0.5, Fraction(2))):
+        r = fn()
+        E.check(type(r) is cls and r.unit is u, label + '-keeps-class-unit', key=label + ':class-unit', info=us)
+        E.check(r.amount == exact, label + '-value', key=label + ':value', info=us)
     if cls.ref_unit is not None:
         du, su = C.unit_dim_vector(u), C.scale(u)
         inv = {kk: -e for kk, e in du.items()}
@@ -271,7 +277,7 @@ def user_price(E, cfg):
     m = E.rational('m', 'dec')
     E.assume(E.And(p != 0, m != 0))
     case = E.choice('case', ['eurkg*kg', 'eurkg*g', 'eurg*kg', 'usdkg*lb', 'eur/kg', 'eur/g', 'hkd/kg',
-                             'eur/lb', 'kg*eurkg', 'eurkg/eurkg'])
+                             'eur/lb', 'kg*eurkg', 'eurkg/eurkg', 'seq-eur-then-usd'])
     info = [case]
     if case in ('eurkg*kg', 'eurkg*g', 'eurg*kg', 'usdkg*lb', 'kg*eurkg'):
         pu = {'eurkg*kg': 'eur_kg', 'eurkg*g': 'eur_kg', 'eurg*kg': 'eur_g', 'usdkg*lb': 'usd_kg',
@@ -318,6 +324,16 @@ def user_price(E, cfg):
         E.check(type(r) is d['PPM'], 'money-div-mass-class', key='money-div-mass:class', info=info)
         E.check(r.unit is d['eur_kg' if mu == 'kg' else 'eur_g'], 'money-div-mass-unit', key='money-div-mass:unit', info=info)
         E.check(r.amount == money.amount / m, 'money-div-mass-value', key='money-div-mass:value', info=info)
+        return
+    if case == 'seq-eur-then-usd':
+        # the same operation for two units of the reference-less type, one after the other
+        usd_per_kg = d['PPM'].derive_unit_from(d['usd'], d['kg']) if False else d['usd_kg']
+        mass = Quantity(m, d['kg'])
+        for cur, pu in (('eur', 'eur_kg'), ('usd', 'usd_kg'), ('eur', 'eur_kg')):
+            r = mass * Quantity(p, d[pu])
+            E.check(type(r) is Money and r.unit is d[cur], 'price-sequence-keeps-currency', key='price-seq:currency', info=[cur])
+            a_, u_ = d['kg'] * d[pu]
+            E.check(u_ is d[cur], 'price-sequence-unit-product', key='price-seq:unit-product', info=[cur])
         return
     if case == 'eurkg/eurkg':
         r = Quantity(p, d['eur_kg']) / Quantity(m, d['eur_kg'])
